@@ -16,7 +16,7 @@ From RU Require Import Model.Host Proofs.C09_Host Proofs.C16_RT6Model.
 From RU Require Import Model.FormUrlencoded Model.QueryPairs Proofs.C02_Form Proofs.C02_SetCred Proofs.C02_SetCredCanon Proofs.C02_QPort Proofs.C02_Reach3.
 From RU Require Proofs.C15_Ser.
 From RU Require Import Proofs.C02_SetHostFrame Proofs.C02_SetHostCanon Proofs.C02_SetScheme Proofs.C02_PathSetter Proofs.C02_SetPath Proofs.C02_Reach4.
-From RU Require Import Proofs.C02_Stmt4 Proofs.C02_QHost Proofs.C02_SetHostNone Proofs.C02_SetPathNoAuth Proofs.C02_Reach5.
+From RU Require Import Proofs.C02_Stmt4 Proofs.C02_QHost Proofs.C02_SetHostNone Proofs.C02_SetPathNoAuth Proofs.C02_SetPathOpaque Proofs.C02_Reach5.
 Open Scope string_scope.
 Open Scope N_scope.
 Open Scope list_scope.
@@ -1116,7 +1116,7 @@ Print Assumptions C02_set_host_none_shape.
    url::quirks::set_pathname on EVERY Canon record, for every argument, outside known_step2 (F-C03-5: the record carries
    the "/." marker; F-C02-8: no authority and the new path starts with "//").  On a record without authority the result
    is the canonical record without authority, or - when the path state writes nothing (empty argument) - scheme ":" [?q]
-   [#f], the canonical opaque record with an empty path.  NOT covered: Url::set_path on an opaque path (class (i)) *)
+   [#f], the canonical opaque record with an empty path.  Url::set_path on an opaque path (class (i)): M.3b *)
 Theorem C02_set_path_Canon_hier : forall dbg hp hpo hd u x u', Canon hp hpo hd u -> cannot_be_a_base u = Some false ->
   usv_list x -> known_step2 dbg hp hpo hd u (OSetPath x) = false ->
   set_path dbg u x = Some u' -> nlen (ser u') <= U32_MAX_P -> Canon hp hpo hd u'.
@@ -1135,12 +1135,34 @@ Check C02_q_set_pathname_Canon_all : forall dbg hp hpo hd u x u', Canon hp hpo h
   q_set_pathname dbg u x = Some u' -> nlen (ser u') <= 4294967295 -> Canon hp hpo hd u'.
 Print Assumptions C02_q_set_pathname_Canon_all.
 
+(* M.3b  L2 for Url::set_path on the canonical records with an OPAQUE path, outside F-C02-3 ('?' / '#' in the argument, or
+   an argument ending in a space): the new path is "%2F" (when the tab/LF/CR-free argument starts with '/') followed by the
+   CONTROLS encoding of the argument without tab / LF / CR - CONTROLS-clean, free of '?' '#', not starting with '/', not
+   ending in a space or control.  C02_set_path_opaque_shape: the result, for EVERY argument (also inside F-C02-3) *)
+Theorem C02_set_path_opaque_shape : forall dbg sch P q f x u', opaque_ok sch P q f -> usv_list x ->
+  set_path dbg (opaque_url sch P q f) x = Some u' -> u' = opaque_url sch (opq_path x) q f.
+Proof. exact set_path_opaque. Qed.
+Print Assumptions C02_set_path_opaque_shape.
+
+Theorem C02_set_path_opaque_Canon : forall dbg hp hpo hd sch P q f x u', opaque_ok sch P q f -> usv_list x ->
+  Known_F_C02_3 (opaque_url sch P q f) (OSetPath x) = false ->
+  set_path dbg (opaque_url sch P q f) x = Some u' -> nlen (ser u') <= U32_MAX_P -> Canon hp hpo hd u'.
+Proof. exact set_path_opaque_Canon. Qed.
+Check C02_set_path_opaque_Canon : forall dbg hp hpo hd sch P q f x u', opaque_ok sch P q f -> usv_list x ->
+  Known_F_C02_3 (opaque_url sch P q f) (OSetPath x) = false ->
+  set_path dbg (opaque_url sch P q f) x = Some u' -> nlen (ser u') <= 4294967295 -> Canon hp hpo hd u'.
+Print Assumptions C02_set_path_opaque_Canon.
+
+Theorem C02_opaque_path_state_setter : forall l ser, usv_list l ->
+  parse_cannot_be_a_base_path CSetter ser l = (ser ++ encode T_CONTROLS (utf8_encode (no_tnl l)), []).
+Proof. exact cbb_setter_spec. Qed.
+Print Assumptions C02_opaque_path_state_setter.
+
 (* M.4  C02_statement4 restricted to the histories of C02_reach_partial3 extended by quirks hostname, quirks host,
-   set_host(None), quirks pathname (on every record) and set_path (on records that are not cannot-be-a-base), each step
-   outside known_step3 (ReachC4; canon_op4): every record is a fixpoint of re-parsing, wf_b, ASCII.
+   set_host(None), quirks pathname and set_path (on every record), each step outside known_step3 (ReachC4; canon_op4 =
+   every operation of C02_Reach.op except path_segments_mut sessions): every record is a fixpoint of re-parsing, wf_b, ASCII.
    Still missing for C02_statement4: the file scheme, joins through the path arms of the relative state and absolute
-   references against a base, an encoding override on special schemes; path_segments_mut sessions (every class);
-   Url::set_path on opaque paths. *)
+   references against a base, an encoding override on special schemes; path_segments_mut sessions (every class). *)
 Theorem C02_reach_partial4 : forall dbg hp hpo hd, HostOK2 hp hpo hd -> host_nonempty hp hpo -> forall u,
   ReachC4 dbg hp hpo hd u -> Fixpoint_of_reparse dbg hp hpo hd u /\ wf_b u = true /\ ascii (ser u).
 Proof. exact reach_partial4. Qed.
@@ -1171,7 +1193,7 @@ Print Assumptions C02_reach_partial4_model.
 
 (* non-vacuity, on the host model with idna_clean: a://u:pw@h.x:81/p?q -> quirks hostname("example.org") -> quirks
    host("[::1]:82") = a://u:pw@[::1]:82/p?q -> set_host(None) = a:/p?q -> set_path("x/../y z") = a:/y%20z?q -> set_path("")
-   = a:?q ; a:/p -> quirks host("") = a:///p ; a://h/p -> quirks pathname("") = a://h ; a://h?q -> set_host(None): panic in
+   = a:?q ; a:/p -> quirks host("") = a:///p ; a://h/p -> quirks pathname("") = a://h ; a:b?q -> set_path("/x y/z") = a:%2Fx y/z?q ; a://h?q -> set_host(None): panic in
    the debug build (F-C04-1), a:?q in the release build; each record is a fixpoint *)
 Example C02_reach_partial4_inhabited :
   match m_hist "a://u:pw@h.x:81/p?q" [OQHostname (B "example.org")] with
@@ -1186,6 +1208,7 @@ Example C02_reach_partial4_inhabited :
      | Some u => list_eqb (ser u) (B "a:?q") && m_fix u | None => false end = true
   /\ match m_hist "a:/p" [OQHost []] with Some u => list_eqb (ser u) (B "a:///p") && m_fix u | None => false end = true
   /\ match m_hist "a://h/p" [OQPathname []] with Some u => list_eqb (ser u) (B "a://h") && m_fix u | None => false end = true
+  /\ match m_hist "a:b?q" [OSetPath (B "/x y/z")] with Some u => list_eqb (ser u) (B "a:%2Fx y/z?q") && m_fix u | None => false end = true
   /\ match m_hist "a://h?q" [OSetHost None] with Some _ => false | None => true end = true
   /\ match m_hist_r "a://h?q" [OSetHost None] with Some u => list_eqb (ser u) (B "a:?q") && m_fix u | None => false end = true.
 Proof. exact reach4_example. Qed.
